@@ -1240,6 +1240,8 @@ def check_xml(run: Run, case) -> list[Disagreement]:
         st.count('xml:CR-in-character-data')
     out = []
     cj = {'kind': 'XML', 'lib': case['lib'], 'variant': variant, 'expr': expr, 'xml': spec if len(spec) < 3000 else spec[:3000] + '...'}
+    if elem is not None:
+        cj['tail_of_the_serialized_element'] = elem.tail
     if impl != spec:
         out.append(Disagreement(cj, impl, None, spec=spec, what='parse-xml(serialize(node)) structure',
                                 site='fn:serialize / fn:parse-xml', tags=tags))
@@ -1795,7 +1797,16 @@ def check_multi(run: Run, case) -> list[Disagreement]:
         out.append(Disagreement(cj, got, want, spec=want, what='for-expression over several items vs single evaluations',
                                 site=MULTI_EXPR[sub][1]))
     elif MULTI_EXPR[sub][3] and want != json.dumps([True] * n):
-        cj['items'] = [canon_xml(x) for x in items]
+        if items is not None:
+            cj['items'] = [canon_xml(x) for x in items]
+        else:
+            # one tree, every element serialized on its own: name the first element that fails
+            elems = [e for e in root.iter() if isinstance(e.tag, str)]
+            flags = json.loads(got) if got.startswith('[') else []
+            bad = next((e for e, ok in zip(elems, flags) if ok is not True), None)
+            cj['tree'] = canon_xml(root)
+            if bad is not None:
+                cj['failing_element'] = canon_xml(bad)
         tags: list[str] = []
         out.append(Disagreement(cj, got, None, spec=json.dumps([True] * n), tags=tags,
                                 what='deep-equal(parse-xml(serialize($e)), $e) over a sequence of nodes', site='fn:serialize / fn:parse-xml'))
@@ -1969,6 +1980,15 @@ def gen_cases(run: Run) -> list[dict]:
                       'policy': rng.choice([None, 'first', 'last', 'reject'])})
     for _ in range(400 * n):
         cases.append({'kind': 'X2J', 'elem': gen_elem(rng, rng.choice([0, 1, 2, 3]))})
+    for lib in ('etree', 'lxml'):
+        E = ep()['ET'] if lib == 'etree' else __import__('lxml.etree').etree
+        for text, tail, ctail in (('x\ry', 'tail', None), ('x', 't\r\nu', None), ('x', 'tail', 'c\rd'), ('x\ry', None, None), ('x', 'tail', None)):
+            root = E.Element('a')
+            b = E.SubElement(root, 'b')
+            b.text, b.tail = text, tail
+            if ctail is not None:
+                E.SubElement(b, 'c').tail = ctail
+            cases.append({'kind': 'XML', 'lib': lib, 'variant': 'inner', '_root': root, '_elem': b, 'big': False})
     for k in range(250 * n):
         lib = rng.choice(['etree', 'lxml'])
         variant = rng.choice(['root', 'root', 'inner', 'inner', 'decl', 'doc'])
@@ -1980,7 +2000,21 @@ def gen_cases(run: Run) -> list[dict]:
             if not inner:
                 c['variant'] = 'root'
             else:
-                c['_elem'] = rng.choice(inner)
+                el = c['_elem'] = rng.choice(inner)
+                # combine the features: a non-root element WITH a tail AND a carriage return in its own text, in a
+                # descendant's text/tail or in the tail itself (tail-less copy x CR marking in serialize_to_xml)
+                r = rng.random()
+                if r < 0.45:
+                    el.tail = rng.choice(['tail', ' t ', 'a&b', 't\ru', 'x\r\ny', '\r'])
+                    where = rng.choice(['text', 'descendant', 'none'])
+                    if where == 'text':
+                        el.text = rng.choice(['x\ry', 'a\r\nb', '\r'])
+                    elif where == 'descendant' and len(el):
+                        d = rng.choice([e for e in el.iter() if e is not el])
+                        if rng.random() < 0.5 and isinstance(d.tag, str):
+                            d.text = 'p\rq'
+                        else:
+                            d.tail = 'r\r\ns'
         elif variant == 'doc':
             if lib == 'etree':
                 E = ep()['ET']
